@@ -416,6 +416,10 @@ class RTCRtpReceiver:
             await self.__rtcp_started.wait()
             self.__rtcp_task.cancel()
             await self.__rtcp_exited.wait()
+        elif self._track is not None:
+            # the receiver was never started, so there is no decoder thread
+            # to inform the track that it has ended
+            self._track._queue.put_nowait(None)
 
     def _handle_disconnect(self) -> None:
         self.__stop_decoder()
